@@ -331,28 +331,54 @@ func c10PeerRun(t *testing.T, cfg c10PeerCfg) c10PeerOutcome {
 }
 
 // c10PeerAttribute re-keys a failure to the unmodified base spec (same peer) when that fails
-// the same way: one defect, one key.
-func c10PeerAttribute(t *testing.T, cache map[string]string, cfg c10PeerCfg, o *c10PeerOutcome) {
+// the same way; else, when the same spec fails the same way towards a silent peer, to the key
+// part flight-vs-spec gives it (c10Attribute); else, for a flight-* knob, to the first knob of
+// that lattice with the same size step that fails the same way with this peer: one defect, one key.
+func c10PeerAttribute(t *testing.T, cache, silent map[string]string, cfg c10PeerCfg, o *c10PeerOutcome) {
 	if o.fail == nil || len(cfg.Knobs) == 0 {
 		return
 	}
 	suffix := strings.TrimPrefix(o.fail.Key, cfg.id())
-	ck := fmt.Sprintf("%d/%d", cfg.Base, cfg.Peer)
-	bc := c10PeerCfg{Base: cfg.Base, Peer: cfg.Peer, Seed: cfg.Seed}
-	bs, ok := cache[ck]
-	if !ok {
-		if r := c10PeerRun(t, bc); r.fail != nil {
-			bs = strings.TrimPrefix(r.fail.Key, bc.id())
+	same := func(bc c10PeerCfg) bool {
+		ck := fmt.Sprint(bc.Base, bc.Peer, bc.Knobs)
+		bs, ok := cache[ck]
+		if !ok {
+			if r := c10PeerRun(t, bc); r.fail != nil {
+				bs = strings.TrimPrefix(r.fail.Key, bc.id())
+			}
+			cache[ck] = bs
 		}
-		cache[ck] = bs
+		return bs != "" && bs == suffix
 	}
-	if bs != "" && bs == suffix {
+	if bc := (c10PeerCfg{Base: cfg.Base, Peer: cfg.Peer, Seed: cfg.Seed}); same(bc) {
 		o.fail.Key = bc.id() + suffix
+		return
+	}
+	sc := cfg.spec()
+	sk, ok := silent[sc.id()]
+	if !ok {
+		if so := c10Run(t, sc); so.fail != nil && strings.TrimPrefix(so.fail.Key, sc.id()) == suffix {
+			c10Attribute(t, silent, sc, &so)
+			sk = so.fail.Key
+		}
+		silent[sc.id()] = sk
+	}
+	if sk != "" && strings.HasSuffix(sk, suffix) {
+		o.fail.Key = sk
+		return
+	}
+	if len(cfg.Knobs) == 1 {
+		for _, k := range c10FlightSiblings(cfg.Knobs[0]) {
+			if bc := (c10PeerCfg{Base: cfg.Base, Knobs: []int{k}, Peer: cfg.Peer, Seed: cfg.Seed}); same(bc) {
+				o.fail.Key = bc.id() + suffix
+				return
+			}
+		}
 	}
 }
 
 func c10PeerPart(t *testing.T) explore.Part {
-	cache := map[string]string{}
+	cache, silent := map[string]string{}, map[string]string{}
 	isNum := func(n string) bool { return strings.HasPrefix(n, "pn") } // pn<value>, pnlens[...], pnlen-unset
 	mk := func(e explore.Env) ([]c10PeerCfg, string) {
 		var sets [][]int
@@ -397,7 +423,7 @@ func c10PeerPart(t *testing.T) explore.Part {
 			rep := explore.RunCases(e, len(cfgs), 1, false, func(i int) explore.CaseResult {
 				explore.MarkCurrent(e, "peer-responses", cfgs[i])
 				o := c10PeerRun(t, cfgs[i])
-				c10PeerAttribute(t, cache, cfgs[i], &o)
+				c10PeerAttribute(t, cache, silent, cfgs[i], &o)
 				cr := explore.CaseResult{Outcome: o.class, Execs: 1, Trans: 1, Replay: cfgs[i]}
 				if o.fail != nil {
 					cr.Outcome, cr.Fail = "violation", o.fail
@@ -419,7 +445,7 @@ func c10PeerPart(t *testing.T) explore.Part {
 			if o.fail == nil {
 				return nil
 			}
-			c10PeerAttribute(t, cache, cfg, &o)
+			c10PeerAttribute(t, cache, silent, cfg, &o)
 			return &explore.Violation{Key: o.fail.Key, What: o.fail.What, Human: append([]string{cfg.id()}, o.human...)}
 		},
 	}
